@@ -16,8 +16,6 @@ theorem rat_pow_ne_zero (x : Rat) (n : Nat) (hx : x ≠ 0) : x ^ n ≠ 0 := by
   | zero => simp
   | succ n ih => rw [Rat.pow_succ]; grind
 
-/-- the scaled central difference of `x ↦ x^n` at relative displacement `d` -/
-def scaledCD (d : Rat) (n : Nat) : Rat := ((1 + d) ^ n - (1 - d) ^ n) / (2 * d)
 
 /-! ### ordered maps -/
 
@@ -166,24 +164,167 @@ theorem perturb_reset (c c1 c2 c3 : Content) (p : Name) (old a b : Rat)
   simp only [omInsert_omInsert]
   rw [omInsert_self c.pars p (.plain old) (plainOf_lookup c.pars hnd p old hold)]
 
+theorem lookup_mem_keys {β} (m : List (Name × β)) (k : Name) (v : β) (h : m.lookup k = some v) :
+    (omKeys m).contains k = true := by
+  induction m with
+  | nil => simp at h
+  | cons kv rest ih =>
+    obtain ⟨k', v'⟩ := kv
+    by_cases hk : (k == k') = true
+    · have e : k = k' := by simpa using hk
+      simp [omKeys, e]
+    · have hk1 : (k == k') = false := by simpa using hk
+      simp only [List.lookup, hk1] at h
+      have := ih h
+      simp [omKeys] at this ⊢
+      exact Or.inr this
+
+/-! ### runs on the one model object -/
+
+theorem Run.bind_inv {α β : Type} (P : Content → Prop) (r : Run α) (f : Content → α → Run β)
+    (hr : P r.1) (hf : ∀ c a, P c → P (f c a).1) : P (r.bind f).1 := by
+  obtain ⟨c, x⟩ := r
+  cases x with
+  | error e => exact hr
+  | ok a => exact hf c a hr
+
+theorem tryFinally_state {α : Type} (body : Run α) (fin : Content → Run Unit) :
+    (tryFinally body fin).1 = (fin body.1).1 := by
+  unfold tryFinally
+  split <;> simp_all
+
+theorem toExcept_ok {α : Type} {r : Run α} {c' : Content} {a : α} (h : r.toExcept = .ok (c', a)) : r.1 = c' := by
+  obtain ⟨c, x⟩ := r
+  cases x with
+  | error e => simp [Run.toExcept] at h
+  | ok b => simp [Run.toExcept] at h; exact h.1
+
+theorem oldValue_ok (c : Content) (par : Name) (old : Rat) (hnd : (omKeys c.pars).Nodup)
+    (h : oldValue c par = .ok old) : c.pars.lookup par = some (.plain old) := by
+  unfold oldValue at h
+  obtain ⟨pv, hpv, h⟩ := bind_ok h
+  have := getParameterValues_ok c pv hpv
+  subst this
+  exact plainOf_lookup c.pars hnd par old (getKey_ok h)
+
+/-- the states a routine that perturbs `par` (and, with custom variables, overwrites the initial values) can
+    leave the model `c` in -/
+def Around (c : Content) (fixVars : Bool) (par : Name) (c' : Content) : Prop :=
+  ∃ vs x, (fixVars = true → vs = c.vars) ∧ c' = { c with vars := vs, pars := omInsert c.pars par (.plain x) }
+
+theorem Around_self (c : Content) (fixVars : Bool) (par : Name) (old : Rat)
+    (hp : c.pars.lookup par = some (.plain old)) : Around c fixVars par c :=
+  ⟨c.vars, old, fun _ => rfl, by rw [omInsert_self c.pars par _ hp]⟩
+
+theorem Around_wrPar (c : Content) (fixVars : Bool) (par : Name) (v : Rat) (c' : Content)
+    (h : Around c fixVars par c') : Around c fixVars par (wr c' (updatePars c' [(par, v)])).1 := by
+  unfold wr
+  cases hu : updatePars c' [(par, v)] with
+  | error e => exact h
+  | ok c'' =>
+    obtain ⟨vs, x, hv, rfl⟩ := h
+    obtain ⟨_, rfl⟩ := updatePars_single _ _ _ _ hu
+    exact ⟨vs, v, hv, by simp [omInsert_omInsert]⟩
+
+/-- the reset: from every state around `c` the parameter update succeeds and gives `c` back, up to the variables -/
+theorem Around_reset (c : Content) (fixVars : Bool) (par : Name) (old : Rat) (c' : Content)
+    (hp : c.pars.lookup par = some (.plain old)) (h : Around c fixVars par c') :
+    ∃ vs, (fixVars = true → vs = c.vars) ∧ wr c' (updatePars c' [(par, old)]) = ({ c with vars := vs }, .ok ()) := by
+  obtain ⟨vs, x, hv, rfl⟩ := h
+  refine ⟨vs, hv, ?_⟩
+  have hk : (omKeys (omInsert c.pars par (Val.plain x))).contains par = true := by
+    rw [omInsert_keys c.pars par _ (lookup_mem_keys _ _ _ hp)]; exact lookup_mem_keys _ _ _ hp
+  simp only [wr, updatePars, setVals, setVal, hk, if_true, omInsert_omInsert]
+  rw [omInsert_self c.pars par _ hp]
+
+/-- `parameter_elasticities`, one parameter: the model afterwards IS the model before — on every path, raising or not -/
+theorem parElasticityOfT_frame (vars : Row) (t : Rat) (normalized : Bool) (d : Rat) (c : Content)
+    (par : Name) (hnd : (omKeys c.pars).Nodup) : (parElasticityOfT vars t normalized d c par).1 = c := by
+  unfold parElasticityOfT rd
+  cases ho : oldValue c par with
+  | error e => rfl
+  | ok old =>
+    have hp := oldValue_ok c par old hnd ho
+    simp only [Run.bind, show Generated.C18.parFinallyResets = true from by decide, if_true]
+    have hbody : Around c true par (parTry vars t d old c par).1 := by
+      unfold parTry
+      refine Run.bind_inv _ _ _ (Around_wrPar c true par _ c (Around_self c true par old hp)) ?_
+      intro c1 _ h1
+      refine Run.bind_inv _ _ _ h1 ?_
+      intro c1' _ h1'
+      refine Run.bind_inv _ _ _ (Around_wrPar c true par _ c1' h1') ?_
+      intro c2 _ h2
+      refine Run.bind_inv _ _ _ h2 ?_
+      intro c2' _ h2'
+      exact h2'
+    obtain ⟨vs, hv, hfin⟩ := Around_reset c true par old _ hp hbody
+    have hvs := hv rfl
+    subst hvs
+    have htf : (tryFinally (parTry vars t d old c par) fun c' => wr c' (updatePars c' [(par, old)])).1 = c := by
+      rw [tryFinally_state, hfin]
+    generalize hT : (tryFinally (parTry vars t d old c par) fun c' => wr c' (updatePars c' [(par, old)])) = T at htf
+    obtain ⟨cT, xT⟩ := T
+    simp only at htf
+    subst htf
+    cases xT with
+    | error e => rfl
+    | ok ul =>
+      simp only
+      cases baseFlux normalized cT vars t ul.1 <;> rfl
+
 theorem parElasticityOf_restores (vars : Row) (t : Rat) (normalized : Bool) (d : Rat) (c c' : Content)
     (par : Name) (col : Column) (hnd : (omKeys c.pars).Nodup)
     (h : parElasticityOf vars t normalized d c par = .ok (c', col)) : c' = c := by
   unfold parElasticityOf at h
-  obtain ⟨pv, hpv, h⟩ := bind_ok h
-  obtain ⟨old, hold, h⟩ := bind_ok h
-  obtain ⟨c1, h1, h⟩ := bind_ok h
-  obtain ⟨up, _, h⟩ := bind_ok h
-  obtain ⟨c2, h2, h⟩ := bind_ok h
-  obtain ⟨lo, _, h⟩ := bind_ok h
-  obtain ⟨c3, h3, h⟩ := bind_ok h
-  obtain ⟨base, _, h⟩ := bind_ok h
-  simp only [pure, Except.pure, Except.ok.injEq, Prod.mk.injEq] at h
-  have hc3 : c3 = c' := h.1
-  subst hc3
-  have := getParameterValues_ok c pv hpv
-  subst this
-  exact perturb_reset c c1 c2 c3 par old _ _ hnd (getKey_ok hold) h1 h2 h3
+  rw [← toExcept_ok h]
+  exact parElasticityOfT_frame vars t normalized d c par hnd
+
+theorem foldColsT_frame (f : Content → Name → Run Column) (P : Content → Prop)
+    (hf : ∀ c p, P c → (f c p).1 = c) :
+    ∀ (ps : List Name) (c : Content), P c → (foldColsT f c ps).1 = c := by
+  intro ps
+  induction ps with
+  | nil => intro c _; rfl
+  | cons p rest ih =>
+    intro c hP
+    unfold foldColsT
+    have h1 := hf c p hP
+    generalize f c p = r at h1
+    obtain ⟨c1, x⟩ := r
+    simp only at h1
+    subst h1
+    cases x with
+    | error e => rfl
+    | ok col =>
+      simp only
+      have h2 := ih c1 hP
+      generalize foldColsT f c1 rest = r2 at h2
+      obtain ⟨c2, y⟩ := r2
+      simp only at h2
+      subst h2
+      cases y <;> rfl
+
+/-- forgetting the model of raising runs commutes with the loop -/
+theorem foldColsT_toExcept (f : Content → Name → Run Column) :
+    ∀ (ps : List Name) (c : Content),
+      (foldColsT f c ps).toExcept = foldCols (fun c p => (f c p).toExcept) c ps := by
+  intro ps
+  induction ps with
+  | nil => intro c; rfl
+  | cons p rest ih =>
+    intro c
+    unfold foldColsT foldCols
+    generalize f c p = r
+    obtain ⟨c1, x⟩ := r
+    cases x with
+    | error e => rfl
+    | ok col =>
+      have ih' := ih c1
+      simp only [Run.toExcept] at ih' ⊢
+      rw [← ih']
+      generalize foldColsT f c1 rest = r2
+      obtain ⟨c2, y⟩ := r2
+      cases y <;> rfl
 
 theorem foldCols_restores (f : Content → Name → Except Err (Content × Column)) (P : Content → Prop)
     (hf : ∀ c p c' col, P c → f c p = .ok (c', col) → c' = c) :
@@ -329,21 +470,6 @@ def WorkerOK (w : Worker) : Prop :=
   ∀ c c' r, w.run c = .ok (c', r) →
     c' = c ∧ ∀ segs, r = some segs → ∀ s, s ∈ segs → s.pars = plainOf c.pars
 
-theorem lookup_mem_keys {β} (m : List (Name × β)) (k : Name) (v : β) (h : m.lookup k = some v) :
-    (omKeys m).contains k = true := by
-  induction m with
-  | nil => simp at h
-  | cons kv rest ih =>
-    obtain ⟨k', v'⟩ := kv
-    by_cases hk : (k == k') = true
-    · have e : k = k' := by simpa using hk
-      simp [omKeys, e]
-    · have hk1 : (k == k') = false := by simpa using hk
-      simp only [List.lookup, hk1] at h
-      have := ih h
-      simp [omKeys] at this ⊢
-      exact Or.inr this
-
 theorem runSS_spec {w : Worker} (hw : WorkerOK w) {c c' : Content} {segs : List Seg} {nan : Bool}
     (h : runSS w c = .ok (c', segs, nan)) : c' = c ∧ ∀ s, s ∈ segs → s.pars = plainOf c.pars := by
   unfold runSS at h
@@ -475,82 +601,150 @@ theorem updateVars_pars (c c' : Content) (kv : Row) (h : updateVars c kv = .ok c
   · cases h; exact ⟨_, rfl⟩
   · cases h
 
+theorem viewSegs_pars (nan : Bool) : ∀ (segs : List Seg) (c c' : Content) (rs : List ArgRows),
+    viewSegs nan c segs = .ok (c', rs) → ∃ ps, c' = { c with pars := ps } := by
+  intro segs
+  induction segs with
+  | nil => intro c c' rs h; simp [viewSegs] at h; exact ⟨c.pars, h.1.symm⟩
+  | cons s rest ih =>
+    intro c c' rs h
+    unfold viewSegs at h
+    cases h1 : viewSeg nan c s with
+    | error e => rw [h1] at h; cases h
+    | ok r =>
+      obtain ⟨c1, r1⟩ := r
+      rw [h1] at h
+      simp only at h
+      have e1 : ∃ ps, c1 = { c with pars := ps } := by
+        unfold viewSeg at h1
+        cases hu : updatePars c s.pars with
+        | error e => rw [hu] at h1; cases h1
+        | ok cu =>
+          rw [hu] at h1
+          simp only at h1
+          have hcu : ∃ ps, cu = { c with pars := ps } := by
+            unfold updatePars at hu
+            split at hu
+            · cases hu; exact ⟨_, rfl⟩
+            · cases hu
+          obtain ⟨ps, rfl⟩ := hcu
+          refine ⟨ps, ?_⟩
+          split at h1
+          · cases h1; rfl
+          · split at h1
+            · cases h1
+            · cases h1; rfl
+      obtain ⟨ps1, rfl⟩ := e1
+      cases h2 : viewSegs nan { c with pars := ps1 } rest with
+      | error e => rw [h2] at h; cases h
+      | ok r2 =>
+        obtain ⟨c2, rs2⟩ := r2
+        rw [h2] at h
+        simp only at h
+        cases h
+        obtain ⟨ps2, hps2⟩ := ih _ c' rs2 h2
+        exact ⟨ps2, hps2⟩
+
+/-- reading a lazy view leaves the model as it was (`_keep_model_parameters`) — whatever the snapshots are -/
+theorem lastRow_state (nan : Bool) (c c' : Content) (segs : List Seg) (r : Option (List (Name × Rat)))
+    (h : lastRow nan c segs = .ok (c', r)) : c' = c := by
+  unfold lastRow viewKeep at h
+  cases h1 : viewSegs nan c segs with
+  | error e => rw [h1] at h; cases h
+  | ok rr =>
+    obtain ⟨c1, rs⟩ := rr
+    rw [h1] at h
+    simp only at h
+    obtain ⟨ps, rfl⟩ := viewSegs_pars nan segs c c1 rs h1
+    cases nan with
+    | true => simp at h; exact h.1.symm
+    | false => simp at h; exact h.1.symm
+
+theorem lastRowT_state (nan : Bool) (c : Content) (segs : List Seg) : (lastRowT nan c segs).1 = c := by
+  unfold lastRowT
+  cases h : lastRow nan c segs with
+  | error e => rfl
+  | ok r => obtain ⟨c', x⟩ := r; exact lastRow_state nan c c' segs x h
+
+theorem runSST_state (w : Worker) (hw : WorkerOK w) (c : Content) : (runSST w c).1 = c := by
+  unfold runSST
+  cases h : runSS w c with
+  | error e => rfl
+  | ok r => obtain ⟨c', segs, nan⟩ := r; exact (runSS_spec hw h).1
+
+theorem Around_applyY0 (c : Content) (y0 : Option Row) (par : Name) (c' : Content)
+    (h : Around c y0.isNone par c') : Around c y0.isNone par (wr c' (applyY0 c' y0)).1 := by
+  cases y0 with
+  | none => exact h
+  | some kv =>
+    simp only [applyY0, wr]
+    cases hu : updateVars c' kv with
+    | error e => exact h
+    | ok c'' =>
+      obtain ⟨vs, x, _, rfl⟩ := h
+      obtain ⟨vs', rfl⟩ := updateVars_pars _ _ kv hu
+      exact ⟨vs', x, by simp, rfl⟩
+
+theorem normStepT_state (w : Worker) (hw : WorkerOK w) (normalized : Bool) (old : Rat) (col : Column) (c : Content) :
+    (normStepT w normalized old col c).1 = c := by
+  unfold normStepT
+  cases normalized with
+  | false => rfl
+  | true =>
+    simp only [if_true]
+    refine Run.bind_inv (fun c' => c' = c) _ _ (runSST_state w hw c) ?_
+    intro c8 r h8
+    subst h8
+    refine Run.bind_inv (fun c' => c' = c8) _ _ (lastRowT_state _ c8 _) ?_
+    intro c9 _ h9
+    exact h9
+
+/-- `_response_coefficient_worker`: the model afterwards IS the model before — parameters and initial values, on
+    every path: success, NaN placeholders, an exception escaping a steady-state run, a view or an update -/
+theorem responseWorkerT_frame (w : Worker) (hw : WorkerOK w) (y0 : Option Row) (normalized : Bool) (d : Rat)
+    (c : Content) (par : Name) (hnd : (omKeys c.pars).Nodup) :
+    (responseWorkerT w y0 normalized d c par).1 = c := by
+  unfold responseWorkerT rd
+  cases ho : oldValue c par with
+  | error e => rfl
+  | ok old =>
+    have hp := oldValue_ok c par old hnd ho
+    simp only [Run.bind, show Generated.C18.respFinallyRestores = true from by decide, if_true]
+    rw [tryFinally_state]
+    have hbody : Around c y0.isNone par (respTry w y0 normalized d old c par).1 := by
+      unfold respTry
+      refine Run.bind_inv _ _ _ (Around_applyY0 c y0 par c (Around_self c _ par old hp)) ?_
+      intro c0 _ h0
+      refine Run.bind_inv _ _ _ (Around_wrPar c _ par _ c0 h0) ?_
+      intro c1 _ h1
+      refine Run.bind_inv _ _ _ (by rw [runSST_state w hw c1]; exact h1) ?_
+      intro c2 up h2
+      refine Run.bind_inv _ _ _ (Around_wrPar c _ par _ c2 h2) ?_
+      intro c3 _ h3
+      refine Run.bind_inv _ _ _ (by rw [runSST_state w hw c3]; exact h3) ?_
+      intro c4 lo h4
+      refine Run.bind_inv _ _ _ (by rw [lastRowT_state]; exact h4) ?_
+      intro c5 uv h5
+      refine Run.bind_inv _ _ _ (by rw [lastRowT_state]; exact h5) ?_
+      intro c6 lv h6
+      refine Run.bind_inv _ _ _ (Around_wrPar c _ par _ c6 h6) ?_
+      intro c7 _ h7
+      rw [normStepT_state w hw]
+      exact h7
+    obtain ⟨vs, hv, hfin⟩ := Around_reset c _ par old _ hp hbody
+    unfold respFinally
+    rw [hfin]
+    simp only [Run.bind]
+    cases y0 with
+    | none => simp only [restoreVars]; rw [hv rfl]
+    | some kv => simp only [restoreVars]
+
 theorem responseWorker_restores (w : Worker) (hw : WorkerOK w) (y0 : Option Row) (normalized : Bool) (d : Rat)
     (c c' : Content) (par : Name) (col : Column) (hnd : (omKeys c.pars).Nodup)
     (h : responseWorker w y0 normalized d c par = .ok (c', col)) : c' = c := by
   unfold responseWorker at h
-  obtain ⟨pv, hpv, h⟩ := bind_ok h
-  have hpv' := getParameterValues_ok c pv hpv
-  obtain ⟨old, hold, h⟩ := bind_ok h
-  rw [hpv'] at hold
-  have hp : c.pars.lookup par = some (.plain old) := plainOf_lookup c.pars hnd par old (getKey_ok hold)
-  obtain ⟨c0, h0, h⟩ := bind_ok h
-  have hc0 : ∃ vs, c0 = { c with vars := vs } := by
-    cases y0 with
-    | none => simp only [applyY0] at h0; cases h0; exact ⟨c.vars, rfl⟩
-    | some kv => exact updateVars_pars c c0 kv h0
-  obtain ⟨vs, hvs⟩ := hc0
-  have hnd0 : (omKeys c0.pars).Nodup := by rw [hvs]; exact hnd
-  have hp0 : c0.pars.lookup par = some (.plain old) := by rw [hvs]; exact hp
-  have hsnap : ∀ (x : Rat) (segs : List Seg), (∀ s, s ∈ segs → s.pars = plainOf (withPar c0 par x).pars) →
-      ∀ s, s ∈ segs → ∃ y, True ∧ s.pars = plainOf (omInsert c0.pars par (.plain y)) :=
-    fun x segs hs s hm => ⟨x, trivial, hs s hm⟩
-  obtain ⟨c1, h1, h⟩ := bind_ok h
-  have e1 : c1 = withPar c0 par (old * (1 + d)) := by
-    rw [← withPar_self c0 par old hp0] at h1
-    exact updatePars_withPar c0 c1 par old _ h1
-  subst e1
-  obtain ⟨⟨c2, upSegs, upNan⟩, h2, h⟩ := bind_ok h
-  simp only at h
-  obtain ⟨e2, hup⟩ := runSS_spec hw h2
-  subst e2
-  obtain ⟨c3, h3, h⟩ := bind_ok h
-  have e3 := updatePars_withPar c0 c3 par _ _ h3
-  subst e3
-  obtain ⟨⟨c4, loSegs, loNan⟩, h4, h⟩ := bind_ok h
-  simp only at h
-  obtain ⟨e4, hlo⟩ := runSS_spec hw h4
-  subst e4
-  obtain ⟨⟨c5, up⟩, h5, h⟩ := bind_ok h
-  simp only at h
-  obtain ⟨x5, _, e5⟩ := lastRow_withPar c0 par old hnd0 hp0 (fun _ => True) upNan upSegs _ c5 up trivial (hsnap _ upSegs hup) h5
-  subst e5
-  obtain ⟨⟨c6, lo⟩, h6, h⟩ := bind_ok h
-  simp only at h
-  obtain ⟨x6, _, e6⟩ := lastRow_withPar c0 par old hnd0 hp0 (fun _ => True) loNan loSegs _ c6 lo trivial (hsnap _ loSegs hlo) h6
-  subst e6
-  obtain ⟨c7, h7, h⟩ := bind_ok h
-  have e7 : c7 = c0 := by
-    have := updatePars_withPar c0 c7 par _ _ h7
-    rw [withPar_self c0 par old hp0] at this
-    exact this
-  obtain ⟨⟨c8, col'⟩, h8, h⟩ := bind_ok h
-  rw [e7] at h8
-  have e8 : c8 = c0 := by
-    unfold normStep at h8
-    cases normalized with
-    | false => simp only [Bool.false_eq_true, if_false, pure, Except.pure] at h8; cases h8; rfl
-    | true =>
-      simp only [if_true] at h8
-      obtain ⟨⟨c8', nSegs, nNan⟩, h81, h8⟩ := bind_ok h8
-      simp only at h8
-      obtain ⟨e81, hn⟩ := runSS_spec hw h81
-      obtain ⟨⟨c9, nv⟩, h82, h8⟩ := bind_ok h8
-      simp only [pure, Except.pure, Except.ok.injEq, Prod.mk.injEq] at h8
-      have hn' : ∀ s, s ∈ nSegs → ∃ y, y = old ∧ s.pars = plainOf (omInsert c0.pars par (.plain y)) := by
-        intro s hm
-        refine ⟨old, rfl, ?_⟩
-        rw [hn s hm, omInsert_self c0.pars par _ hp0]
-      rw [e81, ← withPar_self c0 par old hp0] at h82
-      obtain ⟨x9, hx9, e9⟩ := lastRow_withPar c0 par old hnd0 hp0 (fun y => y = old) nNan nSegs _ c9 nv rfl hn' h82
-      rw [← h8.1, e9, hx9, withPar_self c0 par old hp0]
-  simp only [pure, Except.pure, Except.ok.injEq, Prod.mk.injEq] at h
-  rw [← h.1, e8, hvs]
-  cases y0 with
-  | none =>
-    simp only [applyY0, Except.ok.injEq] at h0
-    rw [← hvs, ← h0]; rfl
-  | some kv => rfl
+  rw [← toExcept_ok h]
+  exact responseWorkerT_frame w hw y0 normalized d c par hnd
 
 
 theorem snapshot_ok (c : Content) (p : List (Name × Rat)) (h : snapshot c = .ok p) : p = plainOf c.pars := by
@@ -630,10 +824,6 @@ theorem cd_lower (d : Rat) (hd : d ≠ 0) : ∀ n : Nat, (n : Rat) ≤ scaledCD 
     · rw [h1]; push_cast; grind
     · rw [h2]; grind
 
-/-- `Π_{k<n} (1 + k·d²)` -/
-def prodUp (d : Rat) : Nat → Rat
-  | 0 => 1
-  | n + 1 => prodUp d n * (1 + (n : Rat) * d ^ 2)
 
 
 theorem cd_upper (d : Rat) (hd : d ≠ 0) : ∀ n : Nat,
@@ -669,5 +859,9 @@ theorem cd_upper (d : Rat) (hd : d ≠ 0) : ∀ n : Nat,
     · rw [h2]
       simp only [prodUp]
       grind
+
+theorem coef_false_eq (d old a b base : Rat) : coef false d old a b base = quot (a - b) (2 * d * old) := by
+  unfold coef
+  cases quot (a - b) (2 * d * old) <;> simp
 
 end Mxl.C18
